@@ -1047,6 +1047,128 @@ fn harden(gn: &mut Gen, thorough: bool) {
     }
     tiny_times_huge(gn, thorough);
     edge_of_range(gn, thorough);
+    mixed_extremes(gn, thorough);
+}
+
+/// MIXED EXTREMES INSIDE ONE OBJECT (fourth seeded round): rows near the bottom of the number range (entries 2^-1056 ..
+/// 2^-1000: subnormal, a handful to 50 significant bits) OR near the top (2^900 .. 2^1010) next to ordinary rows (2^-4 ..
+/// 2^4) in the SAME system, so that forward elimination multiplies a tiny (often subnormal) multiplier - tiny entry over
+/// ordinary pivot, or ordinary entry over huge pivot - by a pivot-row entry that is 2^1000 times larger and subtracts the
+/// product from an entry of its own magnitude.  (Tiny and huge entries inside ONE row are refused by the scaled pivot
+/// test, and tiny rows next to huge rows lose the multiplier itself to underflow: a few of those are generated for the
+/// comparison with the model.)  Unknowns of order 1 (or graded against a column scaling 2^0 .. 2^20 on the huge side), the
+/// right-hand side computed from them or drawn at the magnitude of its row; orders 2..6, dense / dominant / graded /
+/// small-integer / dyadic bases, rows in order or shuffled, every container kind that holds f64.  Judged by the plug-in's
+/// clause 1b in `tiny_regime` (exact |L||U| of scaled partial pivoting, absolute allowance for gradual underflow).
+fn mixed_extremes(gn: &mut Gen, thorough: bool) {
+    let reps = if thorough { 10 } else { 1 };
+    for k in 0..360 * reps {
+        let n = 2 + k % 5;
+        let huge = k % 2 == 1;
+        let style = k / 2 % 5;
+        let exact = style >= 3;
+        let mut v: Vec<f64> = match style {
+            0 => dense(&mut gn.rng, n),
+            1 => dominant(&mut gn.rng, n).iter().map(|x| x * 0.25).collect(),
+            2 => {
+                let t = gn.rng.range(1, 6) as i32;
+                let mut v = dense(&mut gn.rng, n);
+                for j in 0..n {
+                    for i in j + 1..n {
+                        v[i * n + j] *= 10f64.powi(-t);
+                    }
+                    v[j * n + j] = gn.rng.uniform(0.5, 1.0) * sign(&mut gn.rng);
+                }
+                v
+            }
+            3 => {
+                let mut v: Vec<f64> = (0..n * n).map(|_| gn.rng.range(-3, 3) as f64).collect();
+                for i in 0..n {
+                    v[i * n + i] = 4.0 * sign(&mut gn.rng);
+                }
+                v
+            }
+            _ => {
+                let mut v: Vec<f64> = (0..n * n).map(|_| gn.rng.dyadic(8, 2)).collect();
+                for i in 0..n {
+                    v[i * n + i] = (n as f64 + 1.0) * sign(&mut gn.rng);
+                }
+                v
+            }
+        };
+        // which rows are extreme: 1 .. n-1 of them; (k % 24 == 23: tiny AND huge rows in one system - model comparison only)
+        let both_ends = k % 24 == 23;
+        let m = 1 + gn.rng.below(n as u64 - 1) as usize;
+        let mut extreme = vec![false; n];
+        let mut left = m;
+        while left > 0 {
+            let i = gn.rng.below(n as u64) as usize;
+            if !extreme[i] {
+                extreme[i] = true;
+                left -= 1;
+            }
+        }
+        // column scaling on the huge side (the unknowns are scaled the other way: every term keeps its magnitude)
+        let cs: Vec<i64> = (0..n).map(|_| if huge && !exact && k % 3 == 0 { gn.rng.range(0, 20) } else { 0 }).collect();
+        let mut x: Vec<f64> = (0..n).map(|_| if exact { gn.rng.range(-3, 3) as f64 } else { gn.rng.uniform(-2.0, 2.0) }).collect();
+        for j in 0..n {
+            x[j] *= pow2(-cs[j]);
+        }
+        let mut rs = vec![0i64; n];
+        for i in 0..n {
+            rs[i] = if !extreme[i] {
+                // next to tiny rows the other rows stay below 2^-46: a multiplier "ordinary entry over tiny pivot" must
+                // itself be a number (above a ratio of 2^1023 between two rows the unmodified code answers with NaN / inf:
+                // k % 24 == 11 keeps a few of those for the comparison with the model and the note of the plug-in)
+                if huge || k % 24 == 11 { gn.rng.range(-4, 4) } else { gn.rng.range(-70, -50) }
+            } else if huge && !(both_ends && i % 2 == 0) {
+                gn.rng.range(900, 988)
+            } else if exact {
+                -gn.rng.range(1000, 1040)
+            } else {
+                -gn.rng.range(1000, 1050)
+            };
+            for j in 0..n {
+                v[i * n + j] *= pow2(rs[i] + cs[j]);
+            }
+        }
+        let mut b: Vec<f64> = if gn.rng.chance(2, 3) {
+            (0..n).map(|i| (0..n).map(|j| v[i * n + j] * x[j]).sum()).collect()
+        } else {
+            (0..n).map(|i| gn.rng.uniform(-1.0, 1.0) * pow2(rs[i].max(-1060))).collect()
+        };
+        let mut g = Grid { h: n, w: n, v };
+        if k % 3 != 1 {
+            for i in (1..n).rev() {
+                let j = gn.rng.below(i as u64 + 1) as usize;
+                for c in 0..n {
+                    g.v.swap(i * n + c, j * n + c);
+                }
+                b.swap(i, j);
+            }
+        }
+        let tol = gn.tol();
+        gn.gauss(&g, &b, tol);
+    }
+    // the smallest instances, spelled out: [[p, c], [e, d]] x = b with e / p subnormal and (e / p) c of the size of d, for every
+    // tiny exponent; and [[P, C], [a, d]] with a / P subnormal and (a / P) C of the size of d, for the huge ones
+    for t in 0..=50i64 {
+        for (c, d) in [(1.0, 3.0), (-1.5, 1.0), (0.75, -2.0)] {
+            let e = pow2(-1000 - t);
+            let o = pow2(-60);
+            gn.gauss(&Grid { h: 2, w: 2, v: vec![o, c * o, e, d * e] }, &[o + c * o, e + d * e], 1e-12);
+            gn.gauss(&Grid { h: 2, w: 2, v: vec![e, d * e, 2.0 * o, 2.0 * c * o] }, &[e - d * e, 2.0 * o - 2.0 * c * o], 1e-9);
+            gn.gauss(&Grid { h: 3, w: 3, v: vec![2.0 * o, 0.5 * o, c * o, 0.25 * o, o, 0.0, e, -e, d * e] }, &[(2.5 + c) * o, 1.25 * o, d * e], 1e-12);
+            if t % 10 == 0 {
+                // a ratio above 2^1023 between two rows: the multiplier 1 / e overflows when the tiny row is the pivot row
+                gn.gauss(&Grid { h: 2, w: 2, v: vec![e, d * e, 2.0, 2.0 * c] }, &[e - d * e, 2.0 - 2.0 * c], 1e-9);
+            }
+            let p = pow2(960 + t);
+            gn.gauss(&Grid { h: 2, w: 2, v: vec![p, c * p, 1.0, d] }, &[p + c * p, 1.0 + d], 1e-12);
+            gn.gauss(&Grid { h: 2, w: 2, v: vec![0.5, d, p, c * p] }, &[0.5 - d, p - c * p], 1e-9);
+            gn.gauss(&Grid { h: 3, w: 3, v: vec![p, 0.5 * p, c * p, 0.25, 1.0, 0.0, 1.0, -1.0, d] }, &[(1.5 + c) * p, 1.25, d], 1e-12);
+        }
+    }
 }
 
 /// 2^e exactly, for every e from -1074 (the smallest subnormal) to 1023
